@@ -51,9 +51,13 @@ func suitePurity(c *Ctx) {
 			if len(si.prefixes) > 0 {
 				variants = 2 + len(si.prefixes)
 			}
-			for v := 0; v < variants; v++ {
+			extra := 0
+			if len(si.prefixes) > 0 {
+				extra = 3 // option values Key rejects or defaults: they must not be written either
+			}
+			for v := 0; v < variants+extra; v++ {
 				a := c.validArgs(si, l)
-				if v >= 2 {
+				if v >= 2 && v < variants {
 					a.optsNil = false
 					a.optPrefix = si.prefixes[v-2]
 					a.optFlag = v%2 == 0 && si.name == "sunmd5"
@@ -61,6 +65,23 @@ func suitePurity(c *Ctx) {
 						a.optVersion = si.versions[v%len(si.versions)]
 					}
 				}
+				if v >= variants {
+					a.optsNil = false
+					a.optPrefix = si.prefixes[l%len(si.prefixes)]
+					switch v - variants {
+					case 0:
+						a.optVersion = 0 // zero value of the struct
+					case 1:
+						a.optPrefix = ""
+						if len(si.versions) > 0 {
+							a.optVersion = si.versions[0]
+						}
+					case 2:
+						a.optPrefix = "$zz$"
+						a.optVersion = 7
+					}
+				}
+				optsMutation = ""
 				if si.name == "sha1" && a.rounds == 4294967295 {
 					a.rounds = 3
 				}
@@ -92,6 +113,10 @@ func suitePurity(c *Ctx) {
 				}
 				if !bytes.Equal(saltWhole, saltBefore) {
 					c.Fail("argument-modified", si.name+".Key wrote to the salt argument's backing array", in)
+				}
+				if optsMutation != "" {
+					in["detail"] = optsMutation
+					c.Fail("argument-modified", si.name+".Key wrote to the options argument: "+optsMutation, in)
 				}
 				res := "ok " + hx(k1)
 				if err1 != nil {
